@@ -605,156 +605,18 @@ Definition execBinaryMathExpr (op : binop) (l r next : chain) (v : json) (found 
     | _ => returnVerboseError (mathOperandErr "left") found s1
     end.
 
-(* ---------- method.go ---------- *)
-Definition methErr (what : string) : err := EVerbose what.
-
-Definition execMethodType (next : chain) (v : json) (found : found_t) : M resp :=
-  executeNextItem next (JStr (type_name v)) found.
-
-Definition execMethodSize (next : chain) (v : json) (found : found_t) : M resp :=
-  fun s =>
-    match v with
-    | JArr _ es => executeNextItem next (JNum (NInt (Z.of_nat (List.length es)))) found s
-    | _ =>
-        if negb lax && negb (ign s)
-        then returnVerboseError (methErr ".size() can only be applied to an array") found s
-        else executeNextItem next (JNum (NInt 1)) found s
-    end.
-
-Definition nan_or_inf (f : f64) : bool := f_is_inf f || f_is_nan f.
-
-Definition execMethodDouble (n next : chain) (v : json) (found : found_t) (unwrap : bool) : M resp :=
-  let finish (d : f64) : M resp :=
-    if nan_or_inf d then returnVerboseError (methErr "NaN or Infinity is not allowed for .double()") found
-    else executeNextItem next (JNum (NFlt d)) found in
-  let bad := returnVerboseError (methErr ".double(): invalid for type double precision") found in
-  match v with
-  | JArr _ _ => if unwrap then executeItemUnwrapTargetArray n v found
-                else returnVerboseError (methErr ".double() can only be applied to a string or numeric value") found
-  | JNum (NInt z) => finish (xl_of_Z L z)
-  | JNum (NFlt f) => finish f
-  | JNum (NJs t) => match js_float64 L t with Some (f, false) => finish f | _ => bad end
-  | JStr t => match xl_parse_float L t with Some (f, false) => finish f | _ => bad end
-  | _ => returnVerboseError (methErr ".double() can only be applied to a string or numeric value") found
-  end.
-
-Definition execMethodInteger (n next : chain) (v : json) (found : found_t) (unwrap : bool) : M resp :=
-  let bad := returnVerboseError (methErr ".integer(): invalid for type integer") found in
-  let finish (z : Z) : M resp :=
-    if in_int32 z then executeNextItem next (JNum (NInt z)) found else bad in
-  match v with
-  | JArr _ _ => if unwrap then executeItemUnwrapTargetArray n v found
-                else returnVerboseError (methErr ".integer() can only be applied to a string or numeric value") found
-  | JNum (NInt z) => finish z
-  | JNum (NFlt f) => finish (xl_to_int64 L (xl_round L f))
-  | JNum (NJs t) =>
-      match js_int64 L t with
-      | Some z => finish z
-      | None => match js_float64 L t with
-                | Some (f, false) => finish (xl_to_int64 L (xl_round L f))
-                | _ => bad
-                end
-      end
-  | JStr t => match xl_parse_int L 10 32 t with Some z => finish z | None => bad end
-  | _ => returnVerboseError (methErr ".integer() can only be applied to a string or numeric value") found
-  end.
-
-Definition two63f : f64 := S754_finite false 4503599627370496 11.      (* 2^63 = float64(math.MaxInt64) *)
-Definition mtwo63f : f64 := S754_finite true 4503599627370496 11.      (* -2^63 = float64(math.MinInt64) *)
-Definition f_geb (a b : f64) : bool := match fcmp a b with Some Gt | Some Eq => true | _ => false end.
-
-Definition bigint_out_of_range (f : f64) : bool :=
-  f_geb f two63f || f_ltb f mtwo63f || f_is_inf f || f_is_nan f.
-
-Definition execMethodBigInt (n next : chain) (v : json) (found : found_t) (unwrap : bool) : M resp :=
-  let bad := returnVerboseError (methErr ".bigint(): invalid for type bigint") found in
-  let finish (z : Z) : M resp := executeNextItem next (JNum (NInt z)) found in
-  let of_float (f : f64) : M resp :=
-    if bigint_out_of_range f then bad else finish (xl_to_int64 L (xl_round L f)) in
-  match v with
-  | JArr _ _ => if unwrap then executeItemUnwrapTargetArray n v found
-                else returnVerboseError (methErr ".bigint() can only be applied to a string or numeric value") found
-  | JNum (NInt z) => finish z
-  | JNum (NFlt f) => of_float f
-  | JNum (NJs t) =>
-      match js_int64 L t with
-      | Some z => finish z
-      | None => match js_float64 L t with
-                | Some (f, false) => of_float f
-                | _ => bad
-                end
-      end
-  | JStr t => match xl_parse_int L 10 64 t with Some z => finish z | None => bad end
-  | _ => returnVerboseError (methErr ".bigint() can only be applied to a string or numeric value") found
-  end.
-
-Definition execMethodString (n next : chain) (v : json) (found : found_t) (unwrap : bool) : M resp :=
-  let finish (t : string) : M resp := executeNextItem next (JStr t) found in
-  match v with
-  | JArr _ _ => if unwrap then executeItemUnwrapTargetArray n v found
-                else returnVerboseError (methErr ".string() can only be applied to a boolean, string, numeric, or datetime value") found
-  | JStr t => finish t
-  | JDt d => finish (xl_dt_string L d)
-  | JNum (NJs t) => finish t
-  | JNum (NInt z) => finish (xl_format_int L z)
-  | JNum (NFlt f) => finish (xl_format_float L f)
-  | JBool b => finish (if b then "true" else "false")%string
-  | _ => returnVerboseError (methErr ".string() can only be applied to a boolean, string, numeric, or datetime value") found
-  end.
-
-Definition execMethodBoolean (n next : chain) (v : json) (found : found_t) (unwrap : bool) : M resp :=
-  let bad := returnVerboseError (methErr ".boolean(): invalid for type boolean") found in
-  let finish (b : bool) : M resp := executeNextItem next (JBool b) found in
-  let of_float (f : f64) : M resp :=
-    if negb (f_eqb f (xl_trunc L f)) then bad else finish (negb (f_eqb f (S754_zero false))) in
-  match v with
-  | JArr _ _ => if unwrap then executeItemUnwrapTargetArray n v found
-                else returnVerboseError (methErr ".boolean() can only be applied to a boolean, string, or numeric value") found
-  | JBool b => finish b
-  | JNum (NInt z) => finish (negb (z =? 0))
-  | JNum (NFlt f) => of_float f
-  | JNum (NJs t) => match js_float64 L t with Some (f, false) => of_float f | _ => bad end
-  | JStr t => match execBooleanString t with Some b => finish b | None => bad end
-  | _ => returnVerboseError (methErr ".boolean() can only be applied to a boolean, string, or numeric value") found
-  end.
-
-(* executeNumberMethod: .number() (dec = None) and .decimal(p,s) (dec = Some (p,s)) *)
-Definition executeNumberMethod (dec : option (option Z * option Z)) (n next : chain) (v : json) (found : found_t) (unwrap : bool) : M resp :=
-  let bad := returnVerboseError (methErr ".number(): invalid for type numeric") found in
-  let finish (num : f64) : M resp :=
-    if nan_or_inf num then returnVerboseError (methErr "NaN or Infinity is not allowed for .number()") found
-    else
-      match dec with
-      | None => executeNextItem next (JNum (NFlt num)) found
-      | Some (p, sc) =>
-          match executeDecimalMethod L p sc num with
-          | inr e => returnError e found
-          | inl num' => executeNextItem next (JNum (NFlt num')) found
-          end
-      end in
-  match v with
-  | JArr _ _ => if unwrap then executeItemUnwrapTargetArray n v found
-                else returnVerboseError (methErr ".number() can only be applied to a string or numeric value") found
-  | JNum (NFlt f) => finish f
-  | JNum (NInt z) => finish (xl_of_Z L z)
-  | JNum (NJs t) => match js_float64 L t with Some (f, false) => finish f | _ => bad end
-  | JStr t => match xl_parse_float L t with Some (f, false) => finish f | _ => bad end
-  | _ => returnVerboseError (methErr ".number() can only be applied to a string or numeric value") found
-  end.
-
-(* .abs() .floor() .ceiling() *)
-Definition executeNumericItemMethod (icb : Z -> Z) (fcb : f64 -> f64) (n next : chain) (v : json) (found : found_t) (unwrap : bool) : M resp :=
-  let bad := returnVerboseError (methErr "numeric item method can only be applied to a numeric value") found in
-  match v with
-  | JArr _ _ => if unwrap then executeItemUnwrapTargetArray n v found else bad
-  | JNum (NInt z) => executeNextItem next (JNum (NInt (icb z))) found
-  | JNum (NFlt f) => executeNextItem next (JNum (NFlt (fcb f))) found
-  | JNum (NJs t) => match castJSONNumber L t icb fcb with
-                    | Some num => executeNextItem next (JNum num) found
-                    | None => bad
-                    end
-  | _ => bad
-  end.
+(* ---------- method.go ----------
+   Every item method except .keyvalue() is a leaf function of model/Leaf.v
+   (execMethodDouble, execMethodInteger, ... executeNumberMethod,
+   executeNumericItemMethod, execMethodType, execMethodSize): an array is
+   unwrapped first when the method unwraps and unwrap is set, the leaf function
+   computes the item or the error, and executeNextItem hands the item on. *)
+Definition execLeaf (unwraps : bool) (lf : json -> leaf) (n next : chain) (v : json) (found : found_t) (unwrap : bool) : M resp :=
+  if unwraps && unwrap && is_array v then executeItemUnwrapTargetArray n v found
+  else match lf v with
+       | LItem x => executeNextItem next x found
+       | LErr e => returnError e found
+       end.
 
 (* ---------- keyvalue.go ---------- *)
 Fixpoint insert_key (k : string) (l : list string) : list string :=
@@ -783,7 +645,7 @@ Fixpoint kvLoop (keys : list string) (members : list (string * json)) (id : Z) (
   end.
 
 Definition executeKeyValueMethod (n next : chain) (v : json) (found : found_t) (unwrap : bool) : M resp :=
-  let bad := returnVerboseError (methErr ".keyvalue() can only be applied to an object") found in
+  let bad := returnVerboseError (EVerbose ".keyvalue() can only be applied to an object") found in
   match v with
   | JArr _ _ => if unwrap then executeItemUnwrapTargetArray n v found else bad
   | JObj _ members =>
@@ -801,70 +663,11 @@ Definition executeKeyValueMethod (n next : chain) (v : json) (found : found_t) (
   end.
 
 Definition execMethodNode (m : meth) (n next : chain) (v : json) (found : found_t) (unwrap : bool) : M resp :=
-  match m with
-  | MNumber => executeNumberMethod None n next v found unwrap
-  | MAbs => executeNumericItemMethod intAbs fabs n next v found unwrap
-  | MFloor => executeNumericItemMethod (fun x => x) (xl_floor L) n next v found unwrap
-  | MCeiling => executeNumericItemMethod (fun x => x) (xl_ceil L) n next v found unwrap
-  | MType => execMethodType next v found
-  | MSize => execMethodSize next v found
-  | MDouble => execMethodDouble n next v found unwrap
-  | MInteger => execMethodInteger n next v found unwrap
-  | MBigInt => execMethodBigInt n next v found unwrap
-  | MString => execMethodString n next v found unwrap
-  | MBoolean => execMethodBoolean n next v found unwrap
-  | MKeyValue => executeKeyValueMethod n next v found unwrap
-  end.
-
-(* ---------- datetime.go ---------- *)
-Definition executeDateTimeMethod (op : dtop) (tmpl : option string) (prec : option Z) (next : chain) (v : json) (found : found_t) : M resp :=
-  match v with
-  | JStr dts =>
-      let parsed : datetime + err :=
-        match op, tmpl with
-        | DDateTime, Some _ => inr (EExec ".datetime(template) is not yet supported")
-        | _, _ =>
-            let precision : Z + err :=
-              match op, prec with
-              | DDateTime, _ | DDate, _ => inl (-1)
-              | _, None => inl (-1)
-              | _, Some p =>
-                  match getNodeInt32 p "time precision" with
-                  | inr e => inr e
-                  | inl p' => if p' <? 0 then inr (EVerbose "time precision is invalid")
-                              else inl (if p' >? 6 then 6 else p')
-                  end
-              end in
-            match precision with
-            | inr e => inr e
-            | inl p => match xl_parse_time L dts p with
-                       | Some d => inl d
-                       | None => inr (EVerbose "datetime format is not recognized")
-                       end
-            end
-        end in
-      match parsed with
-      | inr e => returnError e found
-      | inl d =>
-          let casted : datetime + err :=
-            match op with
-            | DDateTime => inl d
-            | _ => match xl_cast L op (e_useTZ E) d with
-                   | CastOk d' => inl d'
-                   | CastNotRecognized => inr (EVerbose "datetime format is not recognized")
-                   | CastTZRequired => inr (EExec "cannot convert value without time zone usage")
-                   | CastInvalid => inr (EInvalid "datetime type not supported")
-                   end
-            end in
-          match casted with
-          | inr e => returnError e found
-          | inl d' =>
-              if cnil next && fnil found then ret (mkr SOK None found)
-              else executeNextItem next (JDt d') found
-          end
-      end
-  | _ => returnVerboseError (EVerbose "jsonpath item datetime method can only be applied to a string") found
-  end.
+  fun s =>
+    match method_leaf L lax (ign s) m with
+    | Some (unwraps, lf) => execLeaf unwraps lf n next v found unwrap s
+    | None => executeKeyValueMethod n next v found unwrap s
+    end.
 
 (* ---------- op.go: dispatch ---------- *)
 Definition is_bool_binop (op : binop) : bool :=
@@ -922,10 +725,8 @@ Definition executeItemOptUnwrapTarget (n : chain) (v : json) (found : found_t) (
         | SUn op a => execUnaryNode op a n next v found unwrap s
         | SRegex _ _ _ => execBoolNode n next v found s
         | SMeth m => execMethodNode m n next v found unwrap s
-        | SDecimal p sc => executeNumberMethod (Some (p, sc)) n next v found unwrap s
-        | SDt op tmpl prec =>
-            if unwrap && is_array v then executeItemUnwrapTargetArray n v found s
-            else executeDateTimeMethod op tmpl prec next v found s
+        | SDecimal p sc => execLeaf true (leaf_number L (Some (p, sc))) n next v found unwrap s
+        | SDt op tmpl prec => execLeaf true (leaf_datetime L (e_useTZ E) op tmpl prec) n next v found unwrap s
         | SAny first last => execAnyNode first last next v found s
         | SIndex subs => execArrayIndex subs next v found s
         end
